@@ -323,6 +323,9 @@ func isASCII(s string) bool {
 }
 
 func yamlKey(s string) string {
+	if s == "<<" {
+		return s // the YAML merge key, written plain (quoted it would be an ordinary string)
+	}
 	b, _ := json.Marshal(s) // a JSON string is a YAML double-quoted scalar
 	return string(b)
 }
